@@ -41,6 +41,7 @@ def handle (j : J) : J :=
       opselOk := j.strD "opsel" "ok" == "ok", varsOk := j.strD "vars" "ok" == "ok",
       root := (j.arrD "root").map rselOfJson, fieldDefined := j.boolD "fieldDefined", hasSubResolver := j.boolD "hasSubResolver",
       streamRuntime := j.boolD "streamRuntime",
+      rootCollectOk := j.strD "rootCollect" "ok" == "ok", argsOk := j.strD "args" "ok" == "ok",
       events := (j.arrD "events").map fun e => ((e.asArr?).getD []).map nodeOfJson }
     match subscribe r with
     | .refused exc called pulls => .obj [("refused", .str exc), ("subResolverCalled", .bool called), ("pulls", J.ofNat pulls)]
